@@ -10,7 +10,8 @@ What the code does (and what is modelled, line by line):
   `xyz_xf[:n]` → nodes/vertices/points, `xyz_xf[n : 2n]` → helper points, `xyz_xf[-n_connectors:]` → connectors.
   The transform is an arbitrary row function `f : V3 → V3` here (`blk.map f`); an affine map / a sequence of
   affine maps is one instance (`Aff.apply`, `seqApply`).
-* `_guess_change` (mean ratio of pairwise distances of a random sample → `round(log10 ·)`) is NOT modelled:
+* `_guess_change` (mean ratio of pairwise distances of a random sample → `round(log10 ·)`; `0` when no pair of
+  sampled rows has a usable distance, e.g. all rows coincide) is NOT modelled:
   the detected order of magnitude is the parameter `guess : Int`; the model only says what is done with it
   (`radius *= 10**m`, `units /= 10**m`, numeric `soma_radius *= 10**m`, and `m = 0` when the block has < 2 rows).
 * k-less Dotprops: helper point `p + vect * sampling_resolution` (`* 2` in `mirror_brain`); afterwards
@@ -328,6 +329,23 @@ def symmetrize (lo hi : Rat) (g g0 : RowFn) (xyz : List V3) : List V3 :=
   let center := lo + (hi - lo) / 2
   let mask : V3 → Bool := fun p => decide (center < p.x)
   scatter mask xyz (((xyz.filter mask).map g).map g0)
+
+/-- **`symmetrize_brain` on one neuron** for the array-level map `S` (`= symmetrize lo hi g g0`): every table is
+symmetrized on its own; faces are NOT re-wound (two flips cancel); radii / units are not touched; a Dotprops with
+`k` gets its tangents dropped for regeneration, a k-less Dotprops carries them through helper points at
+`p + vect * res * 2` exactly like `mirror_brain` (navis `fix:` — before, they were dropped and `.vect` raised). -/
+def symmetrizeNeuron {α β μ} (S : List V3 → List V3) (n : Neuron α β μ) : Option (Neuron α β μ) :=
+  let conns' := n.conns.map fun t => if t.xyz.length = 0 then t else { t with xyz := S t.xyz }
+  let pts' : Table α := { n.pts with xyz := S n.pts.xyz }
+  match n.kind with
+  | .tree => some { n with pts := pts', conns := conns' }
+  | .mesh => some { n with pts := pts', conns := conns' }
+  | .dots =>
+    if usesHelpers n.k then
+      match helperPts (n.res * 2) n.pts.xyz n.vect with
+      | none => none
+      | some hp => some { n with pts := pts', vect := some (tangentDirs pts'.xyz (S hp)), conns := conns' }
+    else some { n with pts := pts', vect := none, alpha := none, conns := conns' }
 
 /-! ## orientation of mesh faces -/
 
